@@ -3,6 +3,7 @@ package c18
 
 import (
 	"fmt"
+	"github.com/dave/jennifer/jen"
 	"go/ast"
 	"go/parser"
 	"go/token"
@@ -108,6 +109,25 @@ func check(sc imps.Scenario) error {
 			}
 			if u.Qualifier != want {
 				return fmt.Errorf("%q is imported as %q (real name %q) but referred to as %q\n--- output ---\n%s", imp.Path, imp.Name, real(imp.Path), u.Qualifier, o.Src)
+			}
+		}
+	}
+	// every std package of the scenario printed on its own (Statement.GoString, as in a log line or a test
+	// failure message), right after other stand-alone renders have failed: there is no import block then, so
+	// the only name that is right is the one the package declares
+	if len(o.Model.Hint) == 0 && o.Model.Prefix == "" {
+		for i, p := range sc.Paths {
+			n := stdpkg.Name(p)
+			if n == "" || i > 3 {
+				continue
+			}
+			hx.FailedFragments()
+			var got string
+			if perr := hx.Safe(func() error { got = jen.Qual(p, "X").GoString(); return nil }); perr != nil {
+				return fmt.Errorf("Qual(%q, \"X\").GoString(): %v", p, perr)
+			}
+			if got != n+".X" {
+				return fmt.Errorf("Qual(%q, \"X\") printed on its own, after other stand-alone renders had failed, gives %q; the package declares the name %q", p, got, n)
 			}
 		}
 	}
